@@ -220,6 +220,14 @@ func runC02(c *Ctx) {
 							}
 						}
 					}
+					// a variable of the enclosing function captured by a closure (withLock(func(){...}))
+					if fv, isFree := x.X.(*ssa.FreeVar); isFree && x.Op == token.MUL && fv.Referrers() != nil {
+						for _, r := range *fv.Referrers() {
+							if st, isStore := r.(*ssa.Store); isStore && st.Addr == ssa.Value(fv) {
+								possible(st.Val, d+1, out)
+							}
+						}
+					}
 				}
 			}
 			for _, s := range ei.sitesWith(regFn, putChain) {
